@@ -3,7 +3,7 @@ package machine
 // C15 — integer encoding is little-endian, framed and invertible.
 
 func verifC15Put64() {
-	n := verifChoose(17 + 8*verifTier()) // buffer length 0..16 (quick) / 0..24 (thorough)
+	n := verifChoose(26 + 23*verifTier()) // buffer length 0..25 (quick) / 0..48 (thorough)
 	buf := verifNondetBytes("buf", n)
 	old := verifClone(buf)
 	v := verifNondetU64("v")
@@ -26,7 +26,7 @@ func verifC15Put64() {
 }
 
 func verifC15Get64() {
-	n := verifChoose(17 + 8*verifTier())
+	n := verifChoose(26 + 23*verifTier())
 	a := verifNondetBytes("a", n)
 	b := verifNondetBytes("b", n)
 	a0 := verifClone(a)
@@ -60,7 +60,7 @@ func verifC15Get64() {
 }
 
 func verifC15Put32() {
-	n := verifChoose(17 + 8*verifTier())
+	n := verifChoose(26 + 23*verifTier())
 	buf := verifNondetBytes("buf", n)
 	old := verifClone(buf)
 	v := verifNondetU32("v")
@@ -82,7 +82,7 @@ func verifC15Put32() {
 }
 
 func verifC15Get32() {
-	n := verifChoose(17 + 8*verifTier())
+	n := verifChoose(26 + 23*verifTier())
 	a := verifNondetBytes("a", n)
 	b := verifNondetBytes("b", n)
 	a0 := verifClone(a)
